@@ -4,6 +4,8 @@ import (
 	"encoding/json"
 	"flag"
 	"fmt"
+	"go/types"
+	"golang.org/x/tools/go/ssa"
 	"os"
 	"path/filepath"
 	"sort"
@@ -20,6 +22,10 @@ type KnownFinding struct {
 	Commit     string `json:"commit,omitempty"`
 	Witness    string `json:"witness,omitempty"`
 }
+
+var safetyKinds = map[string]bool{"nil-deref": true, "nil-arg": true, "nil-elem": true, "index": true, "slice-bounds": true,
+	"type-assert": true, "div-zero": true, "nil-map-write": true, "make-len": true, "alloc-bounded": true, "panic": true,
+	"boxed-nil": true, "nil-capture": true}
 
 type PropConfig struct {
 	ID          string   `json:"id"`
@@ -124,6 +130,24 @@ func runCheck(id, repo, verif, tier string, seed int, freeze bool, keep string, 
 			}
 		}
 	}
+	autoAdded := map[string]bool{}
+	if cfg.Safety {
+		// field invariants are sound only if every store in the package is checked: functions outside the
+		// closure that write an invariant-carrying field are swept as well
+		inKeys := map[string]bool{}
+		for _, k := range keys {
+			inKeys[k] = true
+		}
+		for k, fn := range d.fns {
+			if inKeys[k] || contains(cfg.Exclude, k) {
+				continue
+			}
+			if d.storesInvariantField(fn) {
+				keys = append(keys, k)
+				autoAdded[k] = true
+			}
+		}
+	}
 	sort.Strings(keys)
 	dir := keep
 	if dir == "" {
@@ -139,6 +163,16 @@ func runCheck(id, repo, verif, tier string, seed int, freeze bool, keep string, 
 		c := d.cs.Funcs[k]
 		safety := cfg.Safety || (c != nil && c.Safety)
 		f := d.GenVC(k, safety, cfg.LockCheck)
+		if autoAdded[k] && f.VC != nil {
+			// outside the closure: only its stores to invariant-carrying fields are of interest
+			kept := []*Obl{}
+			for _, o := range f.VC.obls {
+				if o.Kind == "fieldinv" || o.Name == k+"/vacuity:requires-satisfiable" || o.Name == k+"/vacuity:exit-reachable" {
+					kept = append(kept, o)
+				}
+			}
+			f.VC.obls = kept
+		}
 		fvcs = append(fvcs, f)
 		if f.Err != "" {
 			engineErrs = append(engineErrs, k+": "+f.Err)
@@ -196,9 +230,12 @@ func runCheck(id, repo, verif, tier string, seed int, freeze bool, keep string, 
 		}
 		return n
 	}
+	// safety obligations are generated from the code itself (one per operation, named after SSA registers):
+	// they come and go with harmless edits, so they are not part of the frozen list - an operation that is no
+	// longer in the code needs no proof. What is frozen for a safety sweep is the set of contract clauses.
 	have := map[string]bool{}
 	for _, r := range results {
-		if strings.Contains(r.O.Name, "/vacuity:block-") {
+		if strings.Contains(r.O.Name, "/vacuity:block-") || safetyKinds[r.O.Kind] || (cfg.Safety && r.O.Kind == "vacuity") {
 			continue
 		}
 		have[base(r.O.Name)] = true
@@ -400,8 +437,8 @@ func failAll(id, verif, tier string, seed int, what, msg string, writeEv bool, t
 	if writeEv {
 		ev := map[string]interface{}{
 			"property_id": id, "tier": tier, "seed": seed, "level": "other",
-			"coverage":    map[string]interface{}{"explanation": "repository could not be loaded: " + msg},
-			"wall_s":      time.Since(t0).Seconds(), "violations": 1,
+			"coverage": map[string]interface{}{"explanation": "repository could not be loaded: " + msg},
+			"wall_s":   time.Since(t0).Seconds(), "violations": 1,
 		}
 		os.MkdirAll(filepath.Join(verif, "evidence"), 0755)
 		eb, _ := json.MarshalIndent(ev, "", " ")
@@ -492,4 +529,33 @@ func renderSexpr(s *sexpr) string {
 		parts = append(parts, renderSexpr(x))
 	}
 	return "(" + strings.Join(parts, " ") + ")"
+}
+
+// storesInvariantField: does fn store to a struct field that carries a fieldinv / safetyinv clause?
+func (d *Driver) storesInvariantField(fn *ssa.Function) bool {
+	for _, b := range fn.Blocks {
+		for _, ins := range b.Instrs {
+			st, ok := ins.(*ssa.Store)
+			if !ok {
+				continue
+			}
+			fa, ok := st.Addr.(*ssa.FieldAddr)
+			if !ok {
+				continue
+			}
+			pt, ok := fa.X.Type().Underlying().(*types.Pointer)
+			if !ok {
+				continue
+			}
+			stt, ok := pt.Elem().Underlying().(*types.Struct)
+			if !ok {
+				continue
+			}
+			name := d.w.typeName(pt.Elem()) + "." + stt.Field(fa.Field).Name()
+			if len(d.cs.FieldInvs[name]) > 0 {
+				return true
+			}
+		}
+	}
+	return false
 }
